@@ -353,15 +353,14 @@ mutual
 /-- **variable-disjoint**: the members of an `all` share no variable (each runs in the
 environment left by its predecessors) and none is called `secondary`; alternatives of `any`,
 a negated rule, a stop rule, an `ofRule` may reuse names freely (each runs on a scratch copy or
-on the empty environment); no kind caches; `ofRule` returns the sibling; utilities: see
-`CtxVarFree` -/
+on the empty environment); no kind caches; utilities: see `CtxVarFree` -/
 def Rule.varDisjoint : Rule → Bool
   | .pattern _ _ _ => true
   | .kind _ => true
   | .regex _ => true
   | .range _ _ _ _ => true
   | .nthChild _ _ none _ => true
-  | .nthChild _ _ (some r) _ => r.varDisjoint && r.selfForm
+  | .nthChild _ _ (some r) _ => r.varDisjoint
   | .inside r stop _ => r.varDisjoint && stop.varDisjoint
   | .has r stop _ => r.varDisjoint && stop.varDisjoint
   | .precedes r stop => r.varDisjoint && stop.varDisjoint
@@ -395,9 +394,9 @@ theorem Rule.varDisjoint_of_varFree : ∀ r : Rule, r.varFree = true →
   | .range _ _ _ _, _ => ⟨rfl, rfl⟩
   | .nthChild _ _ none _, _ => ⟨rfl, rfl⟩
   | .nthChild _ _ (some r) _, h => by
-    simp only [Rule.varFree, Bool.and_eq_true] at h
-    have := Rule.varDisjoint_of_varFree r h.1
-    simp [Rule.varDisjoint, Rule.vars, this.1, this.2, h.2]
+    simp only [Rule.varFree] at h
+    have := Rule.varDisjoint_of_varFree r h
+    simp [Rule.varDisjoint, Rule.vars, this.1, this.2]
   | .inside r stop _, h => by
     simp only [Rule.varFree, Bool.and_eq_true] at h
     have := Rule.varDisjoint_of_varFree r h.1
@@ -532,7 +531,7 @@ def DAny (f : Nat) : Prop :=
     (∀ f', f ≤ f' → satAny ctx f' rs n = o.isSome) ∧
     (∀ e, o = some e → Fm (Rule.varsList rs) env e)
 def DFilter (f : Nat) : Prop :=
-  ∀ r cs env l, Rule.varDisjoint r = true → r.selfForm = true → Fr r.vars env → (∀ c ∈ cs, D c) →
+  ∀ r cs env l, Rule.varDisjoint r = true → Fr r.vars env → (∀ c ∈ cs, D c) →
     filterMapRule ctx f r cs env = .ok l → ∀ f', f ≤ f' → l = cs.filter (sat ctx f' r)
 def DFinder (f : Nat) : Prop :=
   ∀ r field eid c env res env', Rule.varDisjoint r = true → D c → Fr r.vars env →
@@ -656,7 +655,7 @@ theorem d_any_step (f : Nat) (hR : DRule ctx f) (hA : DAny ctx f) : DAny ctx (f 
       simp [satAny, s1 k hk, s2 k hk]
 
 theorem d_filter_step (f : Nat) (hR : DRule ctx f) (hF : DFilter ctx f) : DFilter ctx (f + 1) := by
-  intro r cs env l hv hs hfr hcs h f' hf
+  intro r cs env l hv hfr hcs h f' hf
   cases cs with
   | nil => simp only [filterMapRule, Except.ok.injEq] at h; simp [← h]
   | cons c cs =>
@@ -670,7 +669,7 @@ theorem d_filter_step (f : Nat) (hR : DRule ctx f) (hF : DFilter ctx f) : DFilte
       split at h
       · cases h
       · next rest hfm =>
-        have hrest := hF _ _ _ _ hv hs hfr hcs' hfm f' (by omega)
+        have hrest := hF _ _ _ _ hv hfr hcs' hfm f' (by omega)
         simp only [Except.ok.injEq] at h
         cases m with
         | none =>
@@ -678,8 +677,6 @@ theorem d_filter_step (f : Nat) (hR : DRule ctx f) (hF : DFilter ctx f) : DFilte
           simp only [Option.isSome_none] at hsat
           rw [List.filter_cons, hsat, ← h, hrest]; simp
         | some x =>
-          have := matchRule_selfForm ctx f r c env x env1 hs hm
-          subst this
           simp only at h
           simp only [Option.isSome_some] at hsat
           rw [List.filter_cons, hsat, ← h, hrest]; simp
@@ -719,11 +716,10 @@ theorem d_finder_step (f : Nat) (hR : DRule ctx f) : DFinder ctx (f + 1) := by
 end
 
 section
-variable (ctx : RCtx) (hG : NoGlobalConstraints ctx)
+variable (ctx : RCtx)
 
 local notation "D" => InDoc ctx.root
 
-include hG in
 theorem d_findMap_step (f : Nat) (hF : DFinder ctx f) (hM : DFindMap ctx f) :
     DFindMap ctx (f + 1) := by
   intro r field eid cs env res env' hv hcs hfr h
@@ -745,14 +741,13 @@ theorem d_findMap_step (f : Nat) (hF : DFinder ctx f) (hM : DFindMap ctx f) :
       rw [satInside_cons, s1 k hk, ← h.1]; simp
     · next env1 hfs =>
       obtain ⟨s1, _⟩ := hF _ _ _ _ _ _ _ hv hc hfr hfs
-      have := (all_notrace ctx hG f).2.1 _ _ _ _ _ _ hfs
+      have := (all_notrace ctx f).2.1 _ _ _ _ _ _ hfs
       subst this
       obtain ⟨s2, fm2⟩ := hM _ _ _ _ _ _ _ hv hcs' hfr h
       refine ⟨fun f' hf => ?_, fm2⟩
       obtain ⟨k, rfl, hk⟩ := succ_of_le hf
       rw [satInside_cons, s1 k hk, s2 k hk]; simp
 
-include hG in
 theorem d_until_step (f : Nat) (hR : DRule ctx f) (hF : DFinder ctx f) (hU : DUntil ctx f) :
     DUntil ctx (f + 1) := by
   intro r s field eid st cs env res env' hv hsv hcs hfr h
@@ -788,7 +783,7 @@ theorem d_until_step (f : Nat) (hR : DRule ctx f) (hF : DFinder ctx f) (hU : DUn
           split <;> simp [satInside_cons, hfin, ← h.1]
         · next env1 hfs =>
           obtain ⟨s1, _⟩ := hF _ _ _ _ _ _ _ hv hc hfr hfs
-          have := (all_notrace ctx hG f).2.1 _ _ _ _ _ _ hfs
+          have := (all_notrace ctx f).2.1 _ _ _ _ _ _ hfs
           subst this
           obtain ⟨s2, fm2⟩ := hU _ _ _ _ _ _ _ _ _ hv hsv hcs' hfr h
           refine ⟨fun f' f'' hf' hf'' => ?_, fm2⟩
@@ -851,7 +846,6 @@ theorem d_inside_step (f : Nat) (hS : DStopBy ctx f) : DInside ctx (f + 1) := by
   obtain ⟨s1, fm1⟩ := hS _ _ _ _ _ _ _ _ _ hv hsv (fun c hc => ancestorsOf_inDoc _ _ _ hc) rfl hfr h
   exact ⟨fun f' f'' hf' hf'' => s1 f' f'' (by omega) (by omega), fm1⟩
 
-include hG in
 theorem d_hasUntil_step (f : Nat) (hR : DRule ctx f) (hH : DHasUntil ctx f) :
     DHasUntil ctx (f + 1) := by
   intro r s cs env res env' hv hsv hcs hfr h
@@ -874,7 +868,7 @@ theorem d_hasUntil_step (f : Nat) (hR : DRule ctx f) (hH : DHasUntil ctx f) :
       simp [satBelow, s1 k hk, ← h.1]
     · next env1 hm =>
       obtain ⟨s1, _⟩ := hR _ _ _ _ _ hv hc hfr hm
-      have := (all_notrace ctx hG f).1 _ _ _ _ hm
+      have := (all_notrace ctx f).1 _ _ _ _ hm
       subst this
       split at h
       · cases h
@@ -896,14 +890,13 @@ theorem d_hasUntil_step (f : Nat) (hR : DRule ctx f) (hH : DHasUntil ctx f) :
           simp [satBelow, s1 k hk, s2 k hk, s3 k hk, ← h.1]
         · next env3 hh =>
           obtain ⟨s3, _⟩ := hH _ _ _ _ _ _ hv hsv hch hfr hh
-          have := (all_notrace ctx hG f).2.2.2.2.2.2.2.1 _ _ _ _ _ hh
+          have := (all_notrace ctx f).2.2.2.2.2.2.2.1 _ _ _ _ _ hh
           subst this
           obtain ⟨s4, fm4⟩ := hH _ _ _ _ _ _ hv hsv hcs' hfr h
           refine ⟨fun f' hf => ?_, fm4⟩
           obtain ⟨k, rfl, hk⟩ := succ_of_le hf
           simp [satBelow, s1 k hk, s2 k hk, s3 k hk, s4 k hk]
 
-include hG in
 theorem d_end_step (f : Nat) (hF : DFinder ctx f) (hE : DEnd ctx f) : DEnd ctx (f + 1) := by
   intro r eid cs rest env res env' hv hcs hfr h
   cases cs with
@@ -933,7 +926,7 @@ theorem d_end_step (f : Nat) (hF : DFinder ctx f) (hE : DEnd ctx f) : DEnd ctx (
       simp [satBelow, this]
     · next env1 hfs =>
       obtain ⟨s1, _⟩ := hF _ _ _ _ _ _ _ hv hc hfr hfs
-      have := (all_notrace ctx hG f).2.1 _ _ _ _ _ _ hfs
+      have := (all_notrace ctx f).2.1 _ _ _ _ _ _ hfs
       subst this
       have hsc : ∀ k, f ≤ k → sat ctx k r c = false := by
         intro k hk
@@ -970,11 +963,10 @@ theorem d_end_top (f : Nat) (hE : DEnd ctx f) (r : Rule) (eid : Nat) (cs : List 
 end
 
 section
-variable (ctx : RCtx) (hG : NoGlobalConstraints ctx)
+variable (ctx : RCtx)
 
 local notation "D" => InDoc ctx.root
 
-include hG in
 theorem d_has_step (f : Nat) (hR : DRule ctx f) (hM : DFindMap ctx f) (hHU : DHasUntil ctx f)
     (hE : DEnd ctx f) : DHas ctx (f + 1) := by
   intro r stop field n env res env' hv hsv hn hfr h
@@ -1018,7 +1010,7 @@ theorem d_has_step (f : Nat) (hR : DRule ctx f) (hM : DFindMap ctx f) (hHU : DHa
           simp [satBelow, satBelow_nil, s1 k hk, ← h.1]
         · next env1 hm =>
           obtain ⟨s1, _⟩ := hR _ _ _ _ _ hv hnd hfr hm
-          have := (all_notrace ctx hG f).1 _ _ _ _ hm
+          have := (all_notrace ctx f).1 _ _ _ _ hm
           subst this
           split at h
           · cases h
@@ -1065,10 +1057,9 @@ theorem d_core_step (f : Nat) (hR : DRule ctx f) : DCore ctx (f + 1) := by
   split at h
   · cases h
   · next env1 hm =>
-    obtain ⟨s1, fm1⟩ := hR _ _ _ _ _ hd hn (hvars ▸ Fr.nil env) hm
+    obtain ⟨s1, _⟩ := hR _ _ _ _ _ hd hn (hvars ▸ Fr.nil env) hm
     simp only [Except.ok.injEq, Prod.mk.injEq] at h
-    rw [hvars] at fm1
-    exact ⟨fun f' hf => by rw [← h.1]; exact s1 f' (by omega), h.2 ▸ fm1⟩
+    exact ⟨fun f' hf => by rw [← h.1]; exact s1 f' (by omega), Fm.of_eq h.2.symm⟩
   · next ret env1 hm =>
     obtain ⟨s1, fm1⟩ := hR _ _ _ _ _ hd hn (hvars ▸ Fr.nil env) hm
     rw [hvars] at fm1
@@ -1208,7 +1199,7 @@ theorem d_rule_step (hyp : RefHyp ctx) (f : Nat) (hR : DRule ctx f) (hAl : DAll 
             · simp only [Except.ok.injEq, Prod.mk.injEq] at h; exact h.2.symm
       exact ⟨fun f' hf => (all_rr ctx hyp (f + 1)).1 _ _ _ _ _ hvF hn h f' hf, Fm.of_eq hnt⟩
     | some rule =>
-      have hv' : rule.varDisjoint = true ∧ rule.selfForm = true := by
+      have hv' : rule.varDisjoint = true := by
         simpa [Rule.varDisjoint] using hv
       simp only [Rule.vars] at hfr ⊢
       simp only [matchRule] at h
@@ -1230,7 +1221,7 @@ theorem d_rule_step (hyp : RefHyp ctx) (f : Nat) (hR : DRule ctx f) (hAl : DAll 
         · rw [hfm] at h; cases h
         · rw [hfm] at h
           simp only at h
-          have hk0 := fun k hk => hFi _ _ _ _ hv'.1 hv'.2 hfr hnamedD hfm k hk
+          have hk0 := fun k hk => hFi _ _ _ _ hv' hfr hnamedD hfm k hk
           -- the sat side, for an arbitrary reference fuel
           suffices hmain : (∀ k, f ≤ k →
               (match positionIn n (if reverse = true then
@@ -1303,12 +1294,12 @@ theorem d_rule_step (hyp : RefHyp ctx) (f : Nat) (hR : DRule ctx f) (hAl : DAll 
                 split at h
                 · cases h
                 · next v env1 hmr =>
-                  obtain ⟨_, fm1⟩ := hR _ _ _ _ _ hv'.1 hn hfr hmr
+                  obtain ⟨_, fm1⟩ := hR _ _ _ _ _ hv' hn hfr hmr
                   simp only [Except.ok.injEq, Prod.mk.injEq] at h
                   exact ⟨fun k hk => by rw [hpos k hk, hm]; simp [← h.1], h.2 ▸ fm1⟩
                 · next env1 hmr =>
                   exfalso
-                  have hs := (hR _ _ _ _ _ hv'.1 hn hfr hmr).1 f (Nat.le_refl _)
+                  have hs := (hR _ _ _ _ _ hv' hn hfr hmr).1 f (Nat.le_refl _)
                   simp only [Option.isSome_none] at hs
                   obtain ⟨c, hc, hcid⟩ := indexById_mem hidx
                   obtain ⟨hc1, hc2⟩ := hsub f (Nat.le_refl _) c hc
@@ -1473,14 +1464,13 @@ theorem all_d (hyp : RefHyp ctx) (f : Nat) :
     DRule ctx f ∧ DAll ctx f ∧ DAny ctx f ∧ DFilter ctx f ∧ DFinder ctx f ∧ DFindMap ctx f ∧
     DUntil ctx f ∧ DStopBy ctx f ∧ DInside ctx f ∧ DHasUntil ctx f ∧ DEnd ctx f ∧ DHas ctx f ∧
     DCore ctx f := by
-  have hG := noGlobalConstraints_of_ctxVarFree ctx hyp.ctxOK
   induction f with
   | zero =>
     refine ⟨?_, ?_, ?_, ?_, ?_, ?_, ?_, ?_, ?_, ?_, ?_, ?_, ?_⟩
     · intro r n env res env' _ _ _ h; simp [matchRule] at h
     · intro rs n env b env' _ _ _ h; simp [allLoop] at h
     · intro rs n env o _ _ _ h; simp [anyLoop] at h
-    · intro r cs env l _ _ _ _ h; simp [filterMapRule] at h
+    · intro r cs env l _ _ _ h; simp [filterMapRule] at h
     · intro r field eid c env res env' _ _ _ h; simp [finderStep] at h
     · intro r field eid cs env res env' _ _ _ h; simp [findMapRule] at h
     · intro r s field eid st cs env res env' _ _ _ _ h; simp [findMapUntil] at h
@@ -1494,9 +1484,9 @@ theorem all_d (hyp : RefHyp ctx) (f : Nat) :
     obtain ⟨hR, hAl, hAn, hFi, hF, hM, hU, hS, hI, hHU, hE, hH, hC⟩ := ih
     exact ⟨d_rule_step ctx hyp f hR hAl hAn hFi hI hH hS hC, d_all_step ctx f hR hAl,
       d_any_step ctx f hR hAn, d_filter_step ctx f hR hFi, d_finder_step ctx f hR,
-      d_findMap_step ctx hG f hF hM, d_until_step ctx hG f hR hF hU, d_stopBy_step ctx f hF hM hU,
-      d_inside_step ctx f hS, d_hasUntil_step ctx hG f hR hHU, d_end_step ctx hG f hF hE,
-      d_has_step ctx hG f hR hM hHU hE, d_core_step ctx f hR⟩
+      d_findMap_step ctx f hF hM, d_until_step ctx f hR hF hU, d_stopBy_step ctx f hF hM hU,
+      d_inside_step ctx f hS, d_hasUntil_step ctx f hR hHU, d_end_step ctx f hF hE,
+      d_has_step ctx f hR hM hHU hE, d_core_step ctx f hR⟩
 
 end
 
